@@ -82,10 +82,12 @@ def check(run: Run) -> None:
     FIXED = [Case(t, align=True, compiled=comp, endian=e) for comp in (False, True) for e in ("<", ">") for t in (
         "struct main { uint32 a; uint8 b : 3; uint8 c : 2; };", "struct main { uint32 a; uint8 x; uint8 b : 4; };", "struct main { uint16 a; uint16 b : 9; };",
         "struct main { uint64 a; uint16 b : 16; };", "struct N { uint32 a; uint8 b : 5; };\nstruct main { uint8 k; N n[2]; uint8 t : 1; };")]
+    FIXED += F.mixed_mode_cases(rng)
+    pending_mixed = []
     n_gen = 1500 if thorough else 260
     for i in range(n_gen + len(FIXED)):
         c = FIXED[i - n_gen] if i >= n_gen else F.gen_case(rng, depth=2, unions=(i % 4 == 0), static_only=(i % 3 == 0), max_fields=5, leb=(i % 6 == 0), floats=(i % 2 == 0))
-        ds = [F.random_data(rng, rng.choice([4, 8, 12, 20, 28]) if i < n_gen else 40) for _ in range(2)]
+        ds = getattr(c, "_datas", None) or [F.random_data(rng, rng.choice([4, 8, 12, 20, 28]) if i < n_gen else 40) for _ in range(2)]
         c.ops = [op for d in ds for op in (("parse", d, 0), ("dump", d, 0))]
         try:
             its = build_items(c)
@@ -105,6 +107,11 @@ def check(run: Run) -> None:
                 for it in its:
                     explained.add(id(it))
                 kind = "union" if "union" in c.text else "struct"
+                if F.is_mixed(c) and F.misaligned_embedded(T):
+                    # recorded finding (see C01): the tail padding of an aligned structure at an unaligned offset inside a packed one follows the
+                    # absolute stream position, so the dump is not the bytes the parse consumed.  Only when the dump is the model's.
+                    pending_mixed.append((its, {**c.describe(), "ops": [{"op": "parse+dump", "data": d.hex(), **prob}]}))
+                    continue
                 if kind == "union" and "mask" in prob:
                     # recorded finding (root cause: C11/dump-through-largest-member): the dump differs from the expected bytes only by
                     # CLEARED bits - data of other members that is padding / unassigned bits in the union's largest member
@@ -171,6 +178,8 @@ def check(run: Run) -> None:
     bad = {id(m) for m in mism}
     for its_, rep in pending:
         run.report("C02/union" if any(id(x) in bad for x in its_) else "C02/union-dumped-through-largest-member", rep)
+    for its_, rep in pending_mixed:
+        run.report("C02/struct" if any(id(x) in bad for x in its_) else "C02/aligned-structure-at-unaligned-offset-in-packed-structure", rep)
     report_unexplained(run, mism, explained, "corr_rw (Model.Reader.read_top / Model.Writer.dumps vs the implementation)")
     # ---- recorded findings (fixed inputs; each is matched only when the dump is exactly the recorded wrong one) ----
     for compiled in (False, True):
